@@ -18,23 +18,48 @@ def rule_r1(ctx):
                  "lookup", floor=3)
     f = ctx.prog.need("nni_url_parse_inline_inner", "core/url.c")
     st = G.need_sites(G.stores(f, "u_scheme", "nonnull"), "store to u_scheme", f)
-    cmps = [s for s in f.calls("strncmp") if "nni_schemes" in show(s.node)]
-    eq = {}
-    for s in cmps:
-        for b, (nz, z) in f.value_edges(s).items():
-            eq[b] = z
-    ends = {}
-    for b in f.blocks.values():
-        c = f.cond(b.id) if b.term and len(b.succs) == 2 else None
-        if c is None:
-            continue
-        # nni_schemes[i][len] == '\0'   or   strlen(nni_schemes[i]) == len
-        t = truth_of(c, lambda n: n.get("k") == "idx" and n["b"].get("k") == "idx" and "nni_schemes" in show(n["b"]))
-        if t:
-            ends[b.id] = 1 if t > 0 else 0     # edge on which the character IS zero
-        if c.get("k") == "bin" and c["op"] in ("==", "!=") and "strlen" in show(c) and "nni_schemes" in show(c):
-            ends[b.id] = 0 if c["op"] == "==" else 1
+    cmps = []
     for s in st:
+        entry = f.expand(s.node["rhs"])          # the table entry that is stored: nni_schemes[i], *sp, ...
+        while entry is not None and entry.get("k") == "cast":
+            entry = entry["e"]
+        # the entry comes from the scheme table
+        src_ok = "nni_schemes" in show(entry)
+        if not src_ok:
+            for v in [n for n in walk(entry) if n.get("k") == "var"]:
+                if any(x is not None and "nni_schemes" in show(x) for _, x in G.var_defs(f, v["n"])):
+                    src_ok = True
+        if not src_ok:
+            ctx.fail(r, f, "scheme not taken from the table", s.line, "u_scheme = %s does not come from nni_schemes" % show(entry))
+            continue
+        mine = [c for c in f.calls("strncmp") if any(same_expr(f.expand(a), entry) for a in c.node["args"][:2])]
+        cmps += mine
+        eq = {}
+        for c in mine:
+            for b, (nz, z) in f.value_edges(c).items():
+                eq[b] = z
+        ends = {}
+        for bid, k, atom, val in G.edge_facts(f):
+            # entry[len] == 0 (also as !entry[len])   or   strlen(entry) == len
+            a = atom
+            is_zero = None
+            if a.get("k") == "bin" and a["op"] in ("==", "!=") and const_of(a["rhs"]) == 0:
+                is_zero = (a["op"] == "==") == val
+                a = a["lhs"]
+            elif a.get("k") == "idx":
+                is_zero = not val
+            if is_zero and a.get("k") == "idx" and same_expr(f.expand(a["b"]) if a["b"].get("k") != "un" else a["b"], entry):
+                ends[bid] = k
+            elif is_zero and a.get("k") == "idx":
+                base = a["b"]
+                while base.get("k") == "cast":
+                    base = base["e"]
+                if same_expr(base, entry):
+                    ends[bid] = k
+            if atom.get("k") == "bin" and atom["op"] in ("==", "!=") and ((atom["op"] == "==") == val):
+                for x, y in ((atom["lhs"], atom["rhs"]), (atom["rhs"], atom["lhs"])):
+                    if x.get("k") == "call" and x.get("fn") == "strlen" and same_expr(f.expand(x["args"][0]), entry):
+                        ends[bid] = k
         if eq and G.dominated(f, (s.b, s.i), eq):
             r.ob(f, "scheme store dominated by strncmp(...) == 0")
         else:
@@ -43,8 +68,8 @@ def rule_r1(ctx):
             r.ob(f, "scheme store dominated by the end-of-entry test")
         else:
             ctx.fail(r, f, "scheme matched by prefix", s.line,
-                     "u_scheme is taken from nni_schemes[i] after comparing only the first len bytes; nothing establishes that the "
-                     "table entry ends there, so any prefix of a scheme (including the empty string) is accepted")
+                     "u_scheme is taken from the scheme table after comparing only the first len bytes; nothing establishes that "
+                     "the table entry ends there, so any prefix of a scheme (including the empty string) is accepted")
     sep = [s for s in f.calls("strncmp") if any(x.get("k") == "str" and x.get("v") == "://" for x in walk(f.expand(s.node["args"][1])))]
     if sep and all(not G.reaches(f, (f.entry, 0), [(c.b, c.i)], blocked=G.positions(sep)) for c in cmps):
         r.ob(f, "'://' test precedes the scheme lookup")
